@@ -37,6 +37,14 @@ def providerOf (fs : List Fn) (t : Ty) : Option Nat :=
 def countProviders (fs : List Fn) (t : Ty) : Nat :=
   (fs.map fun f => f.provides.count t).sum
 
+/-- No type is provided by two different functions. -/
+def crossUnique (fs : List Fn) : Bool :=
+  (List.range fs.length).all fun i => (List.range fs.length).all fun j =>
+    i == j || !((fs.getD i default).provides.any fun t => (fs.getD j default).provides.contains t)
+
+/-- No function provides the same type twice. -/
+def selfUnique (fs : List Fn) : Bool := fs.all fun f => f.provides.eraseDups.length == f.provides.length
+
 /-! ### validation -/
 
 /-- breadth-first walk of `validateFuncs`: returns (types without provider, Params types never reached). -/
@@ -94,7 +102,7 @@ def validateFlow (p : Prog) : List String :=
   let invokeVar := if p.quirk == "invokevar" then ["invoke"] else []
   let instrumented := p.instrDir || p.tasks.any (·.instr)
   let instrDiag := if instrumented && p.emitters == 0 then ["other"] else []
-  let dupProv := if (allTypes p).any (fun t => countProviders fs t > 1) then ["dup-provider"] else []
+  let dupProv := if crossUnique fs && selfUnique fs then [] else ["dup-provider"]
   let received := fun (t : Ty) => p.results.contains t || fs.any (fun f => f.deps.contains t) || (t ≥ 1000 && t < 2000)
   let unusedOut := if fs.any (fun f => f.outs.any (fun o => !received o)) then ["unused-output"] else []
   let sinks := p.results ++ (p.tasks.filter (·.invoke)).map (fun t => invTy t.k)
